@@ -56,6 +56,7 @@ class SimLoop(asyncio.BaseEventLoop):
         self.after_hook = None  # callable() run after each callback
         self.silence = None  # (callable()->last progress time or None if nobody waits, limit)
         self.thread_calls = 0
+        self.thread_latency = 0.001
         self.progress = None  # callable() -> monotone progress counter of the workload (None: unknown)
         self._last_progress = None
         # every task gets a creation ordinal: asyncio.all_tasks() is a set (id()-hash order), anything that walks
@@ -90,8 +91,21 @@ class SimLoop(asyncio.BaseEventLoop):
         pass
 
     def run_in_executor(self, executor, func, *args):
+        """No real thread: the function runs synchronously inside the loop after `thread_latency` virtual seconds
+        (a deterministic model of one thread hop; the caller is suspended meanwhile and can be cancelled)."""
         self.thread_calls += 1
-        raise RuntimeError('SIM: run_in_executor/to_thread called - a real thread would have run')
+        fut = self.create_future()
+
+        def run():
+            if fut.done():
+                return
+            try:
+                fut.set_result(func(*args))
+            except BaseException as e:  # noqa
+                fut.set_exception(e)
+
+        self.call_later(self.thread_latency, run)
+        return fut
 
     def call_soon_threadsafe(self, callback, *args, context=None):
         return self.call_soon(callback, *args, context=context)
